@@ -30,6 +30,7 @@ import Sds.Proofs.GenEqConstr2
 import Sds.Proofs.GenEqConstr4
 import Sds.Proofs.GenEqConstr5
 import Sds.Proofs.GenEqConstr3
+import Sds.Proofs.GenEqVec3
 
 namespace Sds.C05
 open Sds Outcome
@@ -324,5 +325,20 @@ theorem raw_constructors_as_translated_from_source (m : Mode) :
     (∀ len value, len + 63 < U64 → Generated.gen_RawVector_with_len m len value = ok (RawVec.withLen len value)) ∧
     (∀ v : RawVec, 64 * v.data.size < U64 → Generated.gen_BitVector_from_raw m v = ok (BitVector.ofRaw v)) :=
   ⟨GenEq.raw_new_eq m, fun len value h => GenEq.raw_with_len_eq m len value h, fun v h => GenEq.bv_from_raw_eq m v h⟩
+
+/-! **`IntVector::resize` and the two `reserve`s as translated from the source on this run** (`Generated/FnsVec3.lean`): the
+`match new_len { new_len if … }` of `resize` (an if / else-if chain), the `while self.len() < new_len { self.push(value) }`
+loop, the shrink through `RawVector::resize(new_len * width, false)`; `reserve` with the `Vec` capacity — which no model
+can see — as the ARBITRARY parameter `cap`.  Equal to the model's `resize` for every `cap`, on every well-formed vector
+whose new bit length fits a `usize` with room for rounding. -/
+theorem int_vector_resize_as_translated_from_source (m : Mode) (cap : Nat) (v : IntVec) (new_len : Nat) (value : Word)
+    (hwf : v.WF) (hb : new_len ≠ v.len → new_len * v.width + 63 < U64) :
+    Generated.gen_IntVector_resize m cap v new_len value = ok (v.resize new_len value) :=
+  GenEq.int_resize_eq m cap v new_len value hwf hb
+
+theorem reserve_as_translated_from_source (m : Mode) (cap additional : Nat) :
+    (∀ v : RawVec, v.len + additional + 63 < U64 → Generated.gen_RawVector_reserve m cap v additional = ok v) ∧
+    (∀ v : IntVec, v.data.len + additional * v.width + 63 < U64 → Generated.gen_IntVector_reserve m cap v additional = ok v) :=
+  ⟨fun v h => GenEq.raw_reserve_eq m cap v additional h, fun v h => GenEq.int_reserve_eq m cap v additional h⟩
 
 end Sds.C05
